@@ -1,7 +1,7 @@
 SPECIFICATION Spec
 CONSTANTS
   Acc = {"a", "b"}
-  MaxGen = 2
+  MaxGen = 3
   TrustsAll = FALSE
 VIEW View
 CHECK_DEADLOCK FALSE
